@@ -22,7 +22,8 @@ Ltac wf_tac :=
   | intros t fks f Hx Hf; explode; try discriminate;
     repeat match goal with H : DropTable _ _ = DropTable _ _ |- _ => inversion H; clear H; subst end;
     simpl in *; explode; try reflexivity
-  | intros x f Hx Hf Hd; explode; simpl in *; explode; try discriminate ].
+  | intros x f Hx Hf Hd; explode; simpl in *; explode; try discriminate
+  | intros x Hx; explode; simpl; repeat constructor; simpl; intuition discriminate ].
 
 Ltac cons_tac :=
   constructor; simpl;
@@ -32,20 +33,23 @@ Ltac cons_tac :=
     repeat match goal with H : ModifyTable _ _ = ModifyTable _ _ |- _ => inversion H; clear H; subst end;
     simpl; auto 10
   | intros x f Hx Hf; explode; simpl in *; explode; simpl; auto 10
-  | intros e He Hd Hn; explode; simpl in *; explode; try congruence ].
+  | intros e He Hd Hn; explode; simpl in *; explode; try congruence
+  | intros x Hx; explode; simpl; try exact I; intros y Hy; explode; simpl; eauto 10 ].
 
 (** * tables: name n, current object id 2n, desired object id 2n+1 *)
 Definition cur (n : nat) : table := mkT n (2 * n).
 Definition des (n : nat) : table := mkT n (2 * n + 1).
 
-(** * The counterexample: re-point a foreign key of kept table 0 to created table 1, which references 0 *)
+(** * The former counterexample (finding C04-modfk-detached, repaired in dependsOn): re-point a foreign key
+      of kept table 0 to created table 1, which references 0.  The cycle 0 <-> 1 makes DetachCycles detach;
+      SortChanges now moves CREATE TABLE 1 in front of the ALTER that re-points the key. *)
 Definition cx_cs : list change :=
   [ ModifyTable (des 0) [ModifyFK (mkFK 5 (cur 0) (cur 2)) (mkFK 5 (des 0) (des 1))];
     AddTable (des 1) [mkFK 21 (des 1) (des 0)] ].
 Definition cx_cat : cat := mkCat [0; 2] [(0, 5, 2)].
 Definition cx_plan : list change :=
-  [ ModifyTable (des 0) [ModifyFK (mkFK 5 (cur 0) (cur 2)) (mkFK 5 (des 0) (des 1))];
-    AddTable (des 1) [];
+  [ AddTable (des 1) [];
+    ModifyTable (des 0) [ModifyFK (mkFK 5 (cur 0) (cur 2)) (mkFK 5 (des 0) (des 1))];
     ModifyTable (des 1) [AddFK (mkFK 21 (des 1) (des 0))] ].
 
 Lemma cx_wf : WF cx_cs.
@@ -54,14 +58,13 @@ Proof. wf_tac. Qed.
 Lemma cx_cons : consistent cx_cat cx_cs.
 Proof. cons_tac. Qed.
 
-Lemma cx_refutes :
-  WF cx_cs /\ consistent cx_cat cx_cs /\ plan cx_cs = POk cx_plan /\ replay cx_plan cx_cat = None.
-Proof. split; [exact cx_wf|]. split; [exact cx_cons|]. split; vm_compute; reflexivity. Qed.
-
-Ltac norepoint_tac :=
-  intros _ t tcs from to Hx Htc; simpl in Hx; explode; try discriminate;
-  repeat match goal with H : ModifyTable _ _ = ModifyTable _ _ |- _ => inversion H; clear H; subst end;
-  simpl in Htc; explode; discriminate.
+Lemma cx_runs : sortMap cx_cs = SMCycle /\ DetachCycles cx_cs = DCOk
+    [ ModifyTable (des 0) [ModifyFK (mkFK 5 (cur 0) (cur 2)) (mkFK 5 (des 0) (des 1))];
+      AddTable (des 1) [];
+      ModifyTable (des 1) [AddFK (mkFK 21 (des 1) (des 0))] ] /\
+  plan cx_cs = POk cx_plan /\
+  replay cx_plan cx_cat = Some (mkCat [1; 0; 2] [(0, 5, 1); (1, 21, 0)]).
+Proof. repeat split; vm_compute; reflexivity. Qed.
 
 (** * Three new tables referencing each other in a 3-cycle *)
 Definition c3_cs : list change :=
@@ -79,8 +82,6 @@ Lemma c3_wf : WF c3_cs.
 Proof. wf_tac. Qed.
 Lemma c3_cons : consistent c3_cat c3_cs.
 Proof. cons_tac. Qed.
-Lemma c3_norepoint : sortMap c3_cs = SMCycle -> no_repoint_to_added c3_cs.
-Proof. norepoint_tac. Qed.
 Lemma c3_runs : sortMap c3_cs = SMCycle /\ plan c3_cs = POk c3_plan /\
   replay c3_plan c3_cat = Some (mkCat [2; 1; 0] [(0, 21, 1); (1, 22, 2); (2, 20, 0)]).
 Proof. repeat split; vm_compute; reflexivity. Qed.
@@ -107,8 +108,6 @@ Proof.
   - exists (DropTable (cur 1) [mkFK 1 (cur 1) (cur 1); mkFK 2 (cur 1) (cur 2)]). simpl. split; [auto|]. split; [reflexivity|].
     eexists; split; [right; left; reflexivity|split; reflexivity].
 Qed.
-Lemma sr_norepoint : sortMap sr_cs = SMCycle -> no_repoint_to_added sr_cs.
-Proof. norepoint_tac. Qed.
 Lemma sr_runs : sortMap sr_cs = SMCycle /\ plan sr_cs = POk sr_plan /\
   replay sr_plan sr_cat = Some (mkCat [0] [(0, 20, 0)]).
 Proof. repeat split; vm_compute; reflexivity. Qed.
@@ -134,55 +133,9 @@ Proof.
   exists (ModifyTable (des 0) [ModifyFK (mkFK 5 (cur 0) (cur 3)) (mkFK 5 (des 0) (des 1))]).
   simpl. split; [auto|]. split; reflexivity.
 Qed.
-Lemma ch_norepoint : sortMap ch_cs = SMCycle -> no_repoint_to_added ch_cs.
-Proof. vm_compute. discriminate. Qed.
 Lemma ch_runs : sortMap ch_cs = SMOk [2; 1; 0] /\ plan ch_cs = POk ch_plan /\
   replay ch_plan ch_cat = Some (mkCat [1; 2; 0] [(1, 22, 2); (0, 5, 1)]).
 Proof. repeat split; vm_compute; reflexivity. Qed.
-
-(** * The counterexample with the two changes swapped: same cycle, the created parent comes first *)
-Definition or_cs : list change :=
-  [ AddTable (des 1) [mkFK 21 (des 1) (des 0)];
-    ModifyTable (des 0) [ModifyFK (mkFK 5 (cur 0) (cur 2)) (mkFK 5 (des 0) (des 1))] ].
-Definition or_plan : list change :=
-  [ AddTable (des 1) [];
-    ModifyTable (des 0) [ModifyFK (mkFK 5 (cur 0) (cur 2)) (mkFK 5 (des 0) (des 1))];
-    ModifyTable (des 1) [AddFK (mkFK 21 (des 1) (des 0))] ].
-
-Lemma or_wf : WF or_cs.
-Proof. wf_tac. Qed.
-Lemma or_cons : consistent cx_cat or_cs.
-Proof. cons_tac. Qed.
-Lemma or_ordered : repoint_ordered or_cs.
-Proof.
-  intros pre t tcs post from to E Hin Ha.
-  destruct pre as [|a [|b [|c pre]]]; simpl in E; inversion E; subst; simpl in *.
-  destruct Ha as [Ha|[]]. left. exact Ha.
-Qed.
-Lemma cx_not_ordered : ~ repoint_ordered cx_cs.
-Proof.
-  intros H.
-  specialize (H [] (des 0) [ModifyFK (mkFK 5 (cur 0) (cur 2)) (mkFK 5 (des 0) (des 1))]
-                [AddTable (des 1) [mkFK 21 (des 1) (des 0)]]
-                (mkFK 5 (cur 0) (cur 2)) (mkFK 5 (des 0) (des 1)) eq_refl (or_introl eq_refl)).
-  simpl in H. apply H. left. reflexivity.
-Qed.
-Lemma or_runs : sortMap or_cs = SMCycle /\ plan or_cs = POk or_plan /\
-  replay or_plan cx_cat = Some (mkCat [1; 0; 2] [(0, 5, 1); (1, 21, 0)]).
-Proof. repeat split; vm_compute; reflexivity. Qed.
-
-Lemma or_exact_ex :
-  WF or_cs /\ consistent cx_cat or_cs /\ sortMap or_cs = SMCycle /\ repoint_ordered or_cs /\
-  ~ no_repoint_to_added or_cs /\ plan or_cs = POk or_plan /\
-  replay or_plan cx_cat = Some (mkCat [1; 0; 2] [(0, 5, 1); (1, 21, 0)]) /\
-  sortMap cx_cs = SMCycle /\ ~ repoint_ordered cx_cs.
-Proof.
-  refine (conj or_wf (conj or_cons (conj (proj1 or_runs) (conj or_ordered (conj _ (conj (proj1 (proj2 or_runs))
-           (conj (proj2 (proj2 or_runs)) (conj _ cx_not_ordered)))))))).
-  - intros H. apply (H (des 0) _ (mkFK 5 (cur 0) (cur 2)) (mkFK 5 (des 0) (des 1)) (or_intror (or_introl eq_refl)) (or_introl eq_refl)).
-    simpl. left. reflexivity.
-  - vm_compute. reflexivity.
-Qed.
 
 (* another order sort.Slice may produce for the chain example (the drop, index 0, between the creations) *)
 Lemma ch_tiebreak : detach_spec ch_cs [AddTable (des 2) []; DropTable (cur 3) [];
